@@ -6,6 +6,8 @@
   Line: `life <tag> <n> <event tokens…> | <per event: result ret running haslistener hasaddr counter closes deadlines>
          <nconns> <per conn: replies> <hangs>`
   (the harness side is /verif/harness/life.go; the meaning of the events is documented there).
+  The model executes the start-up critical section of Bind / Listen / DoListen as ONE step (fix a1069ea); `settleH`
+  runs every thread until it blocks, so the replay below is independent of that granularity.
 -/
 import Varlink.Lifecycle
 import Driver.Proto
